@@ -1,4 +1,5 @@
 import Driver.OpsBind
+import XsdataModel.Bind.FN
 open Lean Proto Py Xs.Bind
 
 /-! Driver ops of property C01: the value-level hypothesis of `Props.C01.bind_generate_F1`
@@ -13,6 +14,15 @@ def run (op : String) (a : Json) : Option (Except String Json) :=
       let c ← OpsBind.dStr (OpsBind.field a "clazz")
       pure (ok (jObj [("ctxF1", jBool (F1.ctxF1 Γ)), ("valF1", jBool (F1.valF1 OpsBind.benv Γ c v)),
         ("instF1", jBool (F1.instF1 Γ c v))]))
+  | "c01.valFN" => some do
+      -- the hypotheses of `Props.C01.bind_generate_F2…` for the feature set `feat`
+      let Γ ← OpsBind.dCtx (OpsBind.field a "ctx")
+      let v ← OpsBind.dVal (OpsBind.field a "value")
+      let c ← OpsBind.dStr (OpsBind.field a "clazz")
+      let f := OpsBind.field a "feat"
+      let flag (k : String) : Bool := (OpsBind.field f k).getBool?.toOption.getD false
+      let ft : FN.Feat := ⟨flag "nillable", flag "tokens", flag "wrapper", flag "sequence", flag "fixed", flag "anyAttrs", flag "inherit"⟩
+      pure (ok (jObj [("ctx", jBool (FN.ctxOK ft Γ)), ("val", jBool (FN.valOKI ft.inherit OpsBind.benv Γ c v))]))
   | _ => none
 
 end OpsC01
